@@ -587,6 +587,10 @@ func Site(rec any, stack string) string {
 		}
 	case strings.Contains(msg, "unexpected type for config"):
 		return "SGetConfig"
+	case strings.Contains(msg, "index out of range [1] with length 1") && strings.Contains(stack, "kubernetes.(*provider).updateStatus"):
+		return "SActiveIn"
+	case strings.Contains(msg, "nil pointer dereference") && strings.Contains(stack, "kubernetes.(*provider).updateStatus"):
+		return "SStatusErr"
 	case strings.Contains(msg, "nil pointer dereference"):
 		if strings.Contains(stack, "pemx.ReadPEM") {
 			return "SNilBlock"
